@@ -175,6 +175,8 @@ def env():
     global _ENV
     if _ENV is not None:
         return _ENV
+    for v in ("OMP_NUM_THREADS", "OPENBLAS_NUM_THREADS", "MKL_NUM_THREADS", "NUMEXPR_NUM_THREADS"):
+        os.environ.setdefault(v, "1")  # no numeric work here; thread pools only cost start-up time in every process
     import scenic  # noqa
     import scenic.syntax.veneer as veneer
     from scenic.core.distributions import RejectionException
@@ -248,7 +250,7 @@ def compile_prog(prog):
     return res
 
 
-def run_real(prog, ctab, gtab, steps, raise_gv=True):
+def run_real(prog, ctab, gtab, steps, raise_gv=True, limit=60):
     """Canonical observation of the real code: same format as canon(lean line)."""
     from scenic.core.dynamics import GuardViolation, InvariantViolation, PreconditionViolation
     from scenic.core.simulators import DummySimulator
@@ -260,7 +262,7 @@ def run_real(prog, ctab, gtab, steps, raise_gv=True):
     E.ctab, E.gtab, E.log, E.dead, E.main = ctab, gtab, [], False, f"B{prog.get('main', 0)}"
     veneer.currentBehavior = None
     old = signal.signal(signal.SIGALRM, _alarm)
-    signal.alarm(10)
+    signal.alarm(limit)
     actions = []
     try:
         sim = DummySimulator().simulate(scene, maxSteps=steps, maxIterations=1, raiseGuardViolations=raise_gv)
@@ -491,3 +493,572 @@ def try_depth(stmts):
         elif s[0] in ("for", "while"):
             d = max(d, try_depth(s[-1]))
     return d
+
+
+# --------------------------------------------------------------------------- theorems
+_I = "Scenic.Interrupts."
+THEOREMS = [_I + n for n in (
+    # selection / priority
+    "pickFrom_some_iff", "pickFrom_none_iff", "pick_lt", "preempt_latest_enabled", "body_runs_iff_no_handler_active",
+    "zipRuntime_reverse", "zipRuntime_mismatch", "blkActive_spec",
+    # one scheduling step: exact resumption
+    "loopTI_eq", "handler_step_yields", "preempted_body_kept", "body_step_resumes_saved", "handler_finished_continues",
+    # control statements
+    "block_concludes", "abort_effect", "break_effect", "break_propagates", "continue_effect", "return_effect",
+    "finished_behaviour_is_silent",
+    # abandoned sub-behaviours are stopped
+    "balance", "simLoop_balance", "simulate_balance",
+    # guards
+    "checkGuards_ok_iff", "checkGuards_log_ok", "rejection_in_guard_is_violation", "invCheck_none_iff", "start_ok_iff",
+    "start_violation_kind", "simulate_start_violation", "sub_start_violation", "lowerTake_spec",
+    "resume_after_take_checks", "try_resume_checks", "lowerDo_spec", "resume_after_sub_checks",
+    "K.subLeaf_hasSub", "no_check_while_sub_runs",
+    # compiler bookkeeping
+    "lowerS_flags", "lowerList_flags", "lowerHandlers_flags", "lower_try_flags",
+    # fuel is only a termination device
+    "go_mono", "go_mono_le",
+)] + ["Scenic.C13." + n for n in (
+    "preempt_latest_enabled", "active_means_enabled_or_running", "handlers_in_reverse_source_order",
+    "handler_finished_continues", "abandoned_subs_stopped", "abandoned_subs_stopped_run", "guards_at_start",
+    "guards_after_action", "guards_after_sub", "guards_on_try_resume", "guards_not_during_sub", "control_flags_exact",
+    "legacy_checks_invariant_during_sub", "example_priority_and_resumption", "legacy_nested_break_lost",
+    "legacy_nested_return_lost", "legacy_nested_break_does_not_compile", "legacy_nested_names_do_not_compile",
+    "example_abort_stops_subs",
+)]
+SIDE = ["Scenic.C13.gen_order", "Scenic.C13.gen_selection", "Scenic.C13.gen_checks", "Scenic.C13.gen_stop"]
+# fields of the configuration that describe repairs of recorded defects: the theorems that need them carry them as
+# hypotheses; while they are false the corresponding known finding must reproduce on the real code
+DEFECT_FLAGS = ("tiCheckSkipsSub", "nestedFlow", "nestedNames")
+
+
+# --------------------------------------------------------------------------- running many cases
+def _worker(job):
+    prog, cases = job
+    out = []
+    for ctab, gtab, steps in cases:
+        if ctab is None:
+            out.append(None)
+            continue
+        try:
+            out.append(run_real(prog, ctab, gtab, steps))
+        except Exception as e:  # never let one case kill the pool
+            out.append({"outcome": "harness:" + type(e).__name__ + ":" + str(e)[:80], "actions": [], "events": []})
+    return out
+
+
+def run_real_many(ctx, jobs):
+    """jobs: [(prog, [(ctab, gtab, steps) | (None, None, None)])] -> list of lists of observations"""
+    import multiprocessing as mp
+    env()  # import Scenic once, before forking (importing it costs ~10 s of CPU: /repo has no byte-code cache)
+    n = min(8, max(1, (os.cpu_count() or 2) // 2), max(1, len(jobs)))
+    if len(jobs) <= 2 or os.environ.get("VERIF_C13_SERIAL") == "1":
+        return [_worker(j) for j in jobs]
+    mpctx = mp.get_context("fork")
+    with mpctx.Pool(n) as pool:
+        res = pool.map_async(_worker, jobs, chunksize=1)
+        try:
+            return res.get(timeout=2400)
+        except mp.TimeoutError:
+            raise Infra("real-code runs timed out")
+
+
+def gen_cases(ctx, cfgbits, nprog, ntab, steps_choices, max_depth, exhaustive_limit):
+    """-> list of (prog, [(ctab, gtab, steps)]) ; programs that do not compile under the current compiler are
+    thinned out (the model predicts them through the `lower` query)"""
+    rng = ctx.rng
+    cands = []
+    for i in range(nprog * 3):
+        g = Gen(rng, rng.choice([1, 2, 2, max_depth, max_depth]))
+        p = g.program()
+        cands.append((p, g.nconds, g.nguards, g))
+    low = ctx.driver([f"C13 lower {cfgbits} {enc_prog(p)}" for p, _, _, _ in cands])
+    progs = []
+    for (p, nc, ng, g), r in zip(cands, low):
+        if r != "ok" and rng.random() > 0.12:
+            ctx.hist("generated_program", "thinned-out (does not compile today)")
+            continue
+        progs.append((p, nc, ng, g))
+        if len(progs) >= nprog:
+            break
+    jobs = []
+    for p, nc, ng, g in progs:
+        steps = rng.choice(steps_choices)
+        cases = []
+        allt = all_tables(nc, steps, exhaustive_limit, rng) if nc else None
+        if allt is not None:
+            ctx.hist("tables", "exhaustive")
+            for ct in allt:
+                cases.append((ct, [[1] * (steps + 1) for _ in range(ng)], steps))
+            for _ in range(min(ntab, 10)):
+                ct, gt = g.tables(p, steps)
+                cases.append((ct, gt, steps))
+        else:
+            ctx.hist("tables", "sampled")
+            for _ in range(ntab):
+                ct, gt = g.tables(p, steps)
+                cases.append((ct, gt, steps))
+        jobs.append((p, cases))
+    return jobs
+
+
+def describe(prog):
+    body = [s for b in prog["behs"] for s in b["body"]]
+    return (f"behs={len(prog['behs'])} depth={max(try_depth(b['body']) for b in prog['behs'])} "
+            f"tries={count_nodes(body, 'try')} loops={count_nodes(body, 'for') + count_nodes(body, 'while')}")
+
+
+def correspondence(ctx, cfg, have_model):
+    """(C) real code vs model(generated cfg); real code vs model(specified cfg).  Returns True when a concrete
+    failing input (not a known finding) was found."""
+    quick = ctx.budget(True, False)
+    jobs = gen_cases(ctx, cfg_bits(cfg) if cfg else "gen",
+                     nprog=ctx.budget(70, 900), ntab=ctx.budget(24, 60),
+                     steps_choices=ctx.budget([3, 4, 4], [4, 5, 5, 6]), max_depth=ctx.budget(2, 3),
+                     exhaustive_limit=ctx.budget(256, 4096))
+    gbits = cfg_bits(cfg) if cfg else "gen"
+    lines_g, lines_s, index = [], [], []
+    for pi, (p, cases) in enumerate(jobs):
+        for ci, (ct, gt, steps) in enumerate(cases):
+            lines_g.append(run_line(gbits, p, ct, gt, steps))
+            lines_s.append(run_line("spec", p, ct, gt, steps))
+            index.append((pi, ci))
+    T = ctx.extra.setdefault("timing", {})
+    T["cases_generated_s"] = round(ctx.elapsed(), 1)
+    out_g = [canon_lean(x) for x in ctx.driver(lines_g)]
+    out_s = [canon_lean(x) for x in ctx.driver(lines_s)]
+    # skip the real run where the model says the step never ends (the real code would hang)
+    real_jobs = []
+    k = 0
+    for p, cases in jobs:
+        rc = []
+        for c in cases:
+            div = out_g[k]["outcome"].startswith("diverge") or out_s[k]["outcome"].startswith("diverge")
+            rc.append((None, None, None) if div else c)
+            k += 1
+        real_jobs.append((p, rc))
+    T["model_runs_done_s"] = round(ctx.elapsed(), 1)
+    real = run_real_many(ctx, real_jobs)
+    T["real_runs_done_s"] = round(ctx.elapsed(), 1)
+    found = False
+    ncorr_bad = nspec_bad = 0
+    diffset = [f for f in CFG_FIELDS if cfg and cfg[f] != SPEC[f]]
+    attributed = {}
+    k = 0
+    for (p, cases), robs in zip(jobs, real):
+        for (ct, gt, steps), r in zip(cases, robs):
+            mg, ms = out_g[k], out_s[k]
+            k += 1
+            if r is None:
+                ctx.hist("case", "model-diverges (real run skipped)")
+                ctx.case(("div", enc_prog(p), ct, gt, steps), nontrivial=False)
+                continue
+            oc = r["outcome"].split(":")[0]
+            ctx.hist("case", oc)
+            ctx.hist("program_shape", describe(p))
+            nontriv = count_nodes([s for b in p["behs"] for s in b["body"]], "try") > 0 and any(any(row) for row in ct)
+            ctx.case((enc_prog(p), ct, gt, steps), nontrivial=nontriv)
+            rep = {"kind": "run", "prog": p, "ctab": ct, "gtab": gt, "steps": steps}
+            if r["outcome"].startswith("hang"):
+                r = run_real(p, ct, gt, steps, limit=300)  # confirm with a generous limit (the machine may be loaded)
+            if r["outcome"].startswith(("hang", "harness")):
+                raise_if = r["outcome"]
+                ctx.broken("correspondence", "real code did not finish a step the model finishes", f"{raise_if}: {source(p)}")
+                found |= ctx.violation("hang:" + describe(p).split()[1], f"the real code {raise_if} on a program the model finishes",
+                                       dict(rep, expected=ms, got=r))
+                continue
+            ok_g = same(r, mg)
+            if not ok_g:
+                ncorr_bad += 1
+                if ncorr_bad <= 3:
+                    ctx.broken("correspondence", "interrupt model (generated configuration) vs real code",
+                               f"{first_diff(r, mg)} differ: real={r} model={mg} program:\n{source(p)} ctab={ct} gtab={gt} steps={steps}")
+            if same(r, ms):
+                continue
+            nspec_bad += 1
+            # attribute the deviation from the specified behaviour to configuration fields
+            what = (f"real code deviates from the specified behaviour ({first_diff(r, ms)}): expected {ms['outcome']} "
+                    f"{' '.join(ms['actions'])} got {r['outcome']} {' '.join(r['actions'])}; program:\n{source(p)}"
+                    f"ctab={ct} gtab={gt} steps={steps}")
+            keys = None
+            if ok_g and diffset:
+                sig = tuple(sorted(diffset))
+                if sum(attributed.values()) < 12 or (nspec_bad % 40 == 0 and sum(attributed.values()) < 40):
+                    keys = attribute(ctx, cfg, diffset, p, ct, gt, steps, r)
+                    for kk in keys:
+                        attributed[kk] = attributed.get(kk, 0) + 1
+                else:
+                    ctx.hist("deviation_from_spec", "explained by the generated configuration (not attributed individually)")
+                    continue
+            if keys is None:
+                keys = ["deviates:" + first_diff(r, ms)]
+            for key in keys:
+                ctx.hist("deviation_from_spec", key)
+                if ctx.violation(key, what, dict(rep, expected=ms, got=r)):
+                    found = True
+    ctx.extra["correspondence"] = {"cases": k, "model_vs_real_mismatches": ncorr_bad, "spec_vs_real_mismatches": nspec_bad,
+                                   "attributed": attributed}
+    return found
+
+
+def attribute(ctx, cfg, diffset, p, ct, gt, steps, r):
+    """smallest set of configuration fields (differing from the specification) that explains the real behaviour"""
+    import itertools
+    for size in range(1, len(diffset) + 1):
+        subsets = list(itertools.combinations(diffset, size))
+        lines = []
+        for sub in subsets:
+            c = dict(SPEC)
+            for f in sub:
+                c[f] = cfg[f]
+            lines.append(run_line(cfg_bits(c), p, ct, gt, steps))
+        outs = [canon_lean(x) for x in ctx.driver(lines)]
+        for sub, o in zip(subsets, outs):
+            if same(r, o):
+                return ["cfg:" + f for f in sub]
+    return ["cfg:" + "+".join(diffset)]
+
+
+# --------------------------------------------------------------------------- (S) direct oracles, no model
+def _acts(r):
+    return [int(a) if a != "-" else None for a in r["actions"]]
+
+
+def direct_flat_priority(ctx):
+    """One try-interrupt statement whose blocks are straight-line labelled actions.  From the documentation alone:
+    (i) the block acting at step t is not earlier than the latest clause whose condition is true at t;
+    (ii) each block's own actions come out in program order, a handler restarting only after it completed
+        (exact resumption), the body never restarting."""
+    rng = ctx.rng
+    found = False
+    jobs, meta = [], []
+    for _ in range(ctx.budget(12, 80)):
+        nh = rng.choice([1, 2, 3])
+        lens = [rng.choice([1, 2, 3, 4])] + [rng.choice([1, 2, 3]) for _ in range(nh)]
+        label = lambda blk, pos: 100 * blk + pos + 1  # block 0 = body, block j+1 = clause j
+        body = [["take", label(0, i)] for i in range(lens[0])]
+        hs = [[j, [["take", label(j + 1, i)] for i in range(lens[j + 1])]] for j in range(nh)]
+        prog = {"behs": [{"body": [["try", body, hs], ["take", 999]]}]}
+        steps = rng.choice([5, 6, 7])
+        cases = []
+        allt = all_tables(nh, steps, ctx.budget(64, 512), rng)
+        tabs = allt if allt is not None else [[[int(rng.random() < rng.choice([0.2, 0.5])) for _ in range(steps)] for _ in range(nh)]
+                                              for _ in range(ctx.budget(40, 150))]
+        for ct in tabs:
+            cases.append((ct, [], steps))
+        jobs.append((prog, cases))
+        meta.append((nh, lens))
+    res = run_real_many(ctx, jobs)
+    for (prog, cases), (nh, lens), robs in zip(jobs, meta, res):
+        for (ct, gt, steps), r in zip(cases, robs):
+            ctx.case(("flat", enc_prog(prog), ct), nontrivial=any(any(row) for row in ct))
+            rep = {"kind": "run", "prog": prog, "ctab": ct, "gtab": gt, "steps": steps, "oracle": "flat-priority"}
+            if r["outcome"] != "ok":
+                found |= ctx.violation("direct:flat:" + r["outcome"].split(":")[0], f"flat try-interrupt program ended with {r['outcome']}", rep)
+                continue
+            acts = _acts(r)
+            pos = {}
+            done_stmt = False
+            for t, a in enumerate(acts):
+                if a is None or a == 999:
+                    done_stmt = True
+                    continue
+                if done_stmt:
+                    found |= ctx.violation("direct:flat:after-end", f"action {a} of the statement after the statement had ended (step {t})", rep)
+                    break
+                blk, p = divmod(a - 1, 100)
+                latest = max([j + 1 for j in range(nh) if ct[j][t]] + [0])
+                if blk < latest:
+                    found |= ctx.violation("direct:priority", f"step {t}: block {blk} acted although the condition of clause {latest - 1} "
+                                           f"(later in the source) was true; actions {acts}", rep)
+                    break
+                exp = pos.get(blk, 0)
+                if p != exp:
+                    found |= ctx.violation("direct:resumption", f"step {t}: block {blk} produced its action #{p} but should have continued at #{exp}; "
+                                           f"actions {acts}", rep)
+                    break
+                pos[blk] = (p + 1) % lens[blk] if blk else p + 1
+            ctx.hist("direct_flat", "checked")
+    return found
+
+
+def _expect(ctx, key, prog, ct, gt, steps, want_actions=None, want_outcome="ok", why=""):
+    r = run_real(prog, ct, gt, steps)
+    ctx.case(("tmpl", key, enc_prog(prog), ct, gt), nontrivial=True)
+    ok = r["outcome"] == want_outcome and (want_actions is None or _acts(r)[: len(want_actions)] == want_actions)
+    ctx.hist("direct_template", key + (":ok" if ok else ":DEVIATES"))
+    if ok:
+        return False
+    return ctx.violation(key, f"{why}: expected {want_outcome} {want_actions}, got {r['outcome']} {r['actions']}; program:\n{source(prog)}ctab={ct} gtab={gt}",
+                         {"kind": "run", "prog": prog, "ctab": ct, "gtab": gt, "steps": steps, "oracle": key,
+                          "expected": {"outcome": want_outcome, "actions": want_actions}})
+
+
+def direct_templates(ctx):
+    """Documented effect of abort / break / continue / return, guard timing, stopping of abandoned sub-behaviours,
+    on small programs whose expected action sequence is evident from the documentation."""
+    rng = ctx.rng
+    found = False
+    T = lambda a: ["take", a]
+    for _ in range(ctx.budget(2, 8)):
+        t0 = rng.choice([1, 2, 3])
+        pulse = [[int(t == t0) for t in range(8)]]
+        # --- control statements in a handler (loop around the statement)
+        loop = lambda handler: {"behs": [{"body": [["while", [T(3), ["try", [["for", 3, [T(1)]]], [[0, handler]]]]], T(9)]}]}
+        pre = ([3, 1, 1, 1] * 3)[:t0]
+        fresh = [3, 1, 1, 1, 3, 1, 1, 1]
+        found |= _expect(ctx, "direct:abort", loop([T(2), ["abort"]]), pulse, [], 8, (pre + [2] + fresh)[:8], why="abort ends the statement, the loop goes on")
+        found |= _expect(ctx, "direct:break", loop([T(2), ["break"]]), pulse, [], 8, (pre + [2, 9] + [None] * 8)[:8], why="break leaves the enclosing loop")
+        found |= _expect(ctx, "direct:continue", loop([T(2), ["continue"]]), pulse, [], 8, (pre + [2] + fresh)[:8], why="continue starts the next iteration")
+        found |= _expect(ctx, "direct:return", loop([T(2), ["return"]]), pulse, [], 8, (pre + [2] + [None] * 8)[:8], why="return ends the behaviour")
+        # resumption: handler without control statement
+        seq = [3, 1, 1, 1] * 3
+        found |= _expect(ctx, "direct:resume", loop([T(2)]), pulse, [], 8, (seq[:t0] + [2] + seq[t0:])[:8], why="the body resumes where it was pre-empted")
+        # --- the same control statements in a handler of a statement nested in the body of another one
+        nest = lambda handler: {"behs": [{"body": [["for", 2, [T(3), ["try", [["try", [T(1), T(1), T(1)], [[0, handler]]], T(4)], [[1, [T(5)]]]], T(6)]], T(9)]}]}
+        c2 = [pulse[0], [0] * 8]
+        pre2 = [3, 1, 1, 1, 4, 6, 3][:t0]
+        found |= _expect(ctx, "direct:nested-break", nest([T(2), ["break"]]), c2, [], 8, (pre2 + [2, 9] + [None] * 8)[:8], why="break in a nested handler leaves the loop")
+        found |= _expect(ctx, "direct:nested-continue", nest([T(2), ["continue"]]), c2, [], 8, (pre2 + [2, 3, 1, 1, 1, 4, 6, 9])[:8], why="continue in a nested handler starts the next iteration")
+        found |= _expect(ctx, "direct:nested-return", nest([T(2), ["return"]]), c2, [], 8, (pre2 + [2] + [None] * 8)[:8], why="return in a nested handler ends the behaviour")
+        found |= _expect(ctx, "direct:nested-abort", nest([T(2), ["abort"]]), c2, [], 8, (pre2 + [2, 4, 6, 3, 1, 1, 1])[:8], why="abort in a nested handler ends the inner statement only")
+        # more handlers inside than outside
+        inner3 = {"behs": [{"body": [["try", [["try", [T(1), T(1), T(1)], [[0, [T(2)]], [1, [T(7)]], [2, [T(8)]]]]], [[3, [T(5)]]]], T(9)]}]}
+        found |= _expect(ctx, "direct:nested-names", inner3, [pulse[0], [0] * 8, [0] * 8, [0] * 8], [], 6, ([1, 1, 1][:t0] + [2] + [1, 1, 1][t0:] + [9])[:6],
+                         why="a nested statement may have more handlers than the enclosing one")
+        # the outer break survives a nested statement in a later clause
+        clob = {"behs": [{"body": [["for", 3, [["try", [T(1), T(1), T(1)], [[0, [["break"]]], [1, [["try", [T(3)], [[2, [T(4)]]]]]]]], T(8)]], T(9)]}]}
+        found |= _expect(ctx, "direct:nested-break-clobbered", clob, [pulse[0], [0] * 8, [0] * 8], [], 8, ([1, 1, 1, 8, 1, 1, 1][:t0] + [9] + [None] * 8)[:8],
+                         why="break leaves the loop also when a later clause contains a nested statement")
+        # --- guards
+        sub3 = {"body": [T(1), T(2), T(3)]}
+        plain = {"behs": [{"inv": [0], "body": [["do", 1], T(7)]}, sub3]}
+        intry = {"behs": [{"inv": [0], "body": [["try", [["do", 1]], [[0, [T(5)]]]], T(7)]}, sub3]}
+        until = {"behs": [{"inv": [0], "body": [["dountil", 1, 0], T(7)]}, sub3]}
+        tb = rng.choice([1, 2])  # while the sub-behaviour runs
+        for bad in (0, 2):
+            g_during = [[1 if t != tb else bad for t in range(8)]]
+            g_after = [[1 if t != 3 else bad for t in range(8)]]
+            g_start = [[bad] + [1] * 7]
+            found |= _expect(ctx, "direct:inv-during-sub:plain", plain, [[0] * 8], g_during, 6, [1, 2, 3, 7], why="invariants are not checked while a sub-behaviour runs")
+            found |= _expect(ctx, "direct:inv-during-sub", intry, [[0] * 8], g_during, 6, [1, 2, 3, 7], why="invariants are not checked while a sub-behaviour runs (under try-interrupt)")
+            found |= _expect(ctx, "direct:inv-during-sub", until, [[0] * 8], g_during, 6, [1, 2, 3, 7], why="invariants are not checked while a sub-behaviour runs (do-until)")
+            for nm, pr in (("plain", plain), ("try", intry), ("until", until)):
+                found |= _expect(ctx, "direct:inv-after-sub:" + nm, pr, [[0] * 8], g_after, 6, None, "viol:inv:0:3", why="invariants are checked when the sub-behaviour has finished")
+                found |= _expect(ctx, "direct:inv-at-start:" + nm, pr, [[0] * 8], g_start, 6, None, "viol:inv:0:0", why="invariants are checked when the behaviour starts")
+            act = {"behs": [{"inv": [0], "body": [["try", [T(1), T(2), T(3), T(4)], [[0, [T(5), T(6)]]]]]}]}
+            for tv in (1, 2, 3):
+                gv = [[1 if t != tv else bad for t in range(8)]]
+                found |= _expect(ctx, "direct:inv-after-action", act, pulse, gv, 6, None, f"viol:inv:0:{tv}", why="invariants are checked at every resumption after an action")
+            withpre = {"behs": [{"body": [T(1), ["do", 1], T(7)]}, {"pre": [0], "inv": [1], "body": [T(2), T(3)]}]}
+            found |= _expect(ctx, "direct:pre-at-sub-start", withpre, [], [[1, bad, 1, 1, 1], [1] * 5], 5, None, "viol:pre:1:1", why="preconditions are checked when the sub-behaviour starts")
+            found |= _expect(ctx, "direct:pre-only-at-start", withpre, [], [[1, 1, bad, bad, 1], [1] * 5], 5, [1, 2, 3, 7], why="preconditions are checked only at the start")
+            found |= _expect(ctx, "direct:inv-at-sub-start", withpre, [], [[1] * 5, [1, bad, 1, 1, 1]], 5, None, "viol:inv:1:1", why="invariants are checked when the sub-behaviour starts")
+            mainpre = {"behs": [{"pre": [0], "body": [T(1)]}]}
+            found |= _expect(ctx, "direct:pre-at-start", mainpre, [], [[bad, 1, 1]], 3, None, "viol:pre:0:0", why="preconditions are checked when the behaviour starts")
+            # rejected (None) when not asked to raise
+            r = run_real(mainpre, [], [[bad, 1, 1]], 3, raise_gv=False)
+            ctx.case(("reject", bad))
+            if r["outcome"] != "rejected":
+                found |= ctx.violation("direct:reject", f"a guard violation with raiseGuardViolations=False gave {r['outcome']} instead of a rejected simulation",
+                                       {"kind": "run", "prog": mainpre, "ctab": [], "gtab": [[bad, 1, 1]], "steps": 3, "raise_gv": False})
+        # --- abandoned sub-behaviours are stopped (observed through Behavior._start/_stop)
+        deep = {"behs": [{"body": [["while", [["try", [["do", 1]], [[0, [["abort"]]]]], T(9)]]]}, {"body": [["do", 2]]}, {"body": [T(1), T(2), T(3), T(4)]}]}
+        r = run_real(deep, pulse, [], 6)
+        ctx.case(("stops", t0))
+        ev = r["events"]
+        okstop = r["outcome"] == "ok" and len(ev) > t0 and sorted(e for e in ev[t0] if e[0] == "-") == ["-1", "-2"]
+        if not okstop:
+            found |= ctx.violation("direct:abandoned-subs", f"abort at step {t0} did not stop both sub-behaviours in that step: events {ev}",
+                                   {"kind": "run", "prog": deep, "ctab": pulse, "gtab": [], "steps": 6, "oracle": "abandoned-subs"})
+        untl = {"behs": [{"body": [["dountil", 1, 0], T(9)]}, {"body": [["do", 2]]}, {"body": [T(1), T(2), T(3), T(4)]}]}
+        r = run_real(untl, pulse, [], 6)
+        ev = r["events"]
+        if not (r["outcome"] == "ok" and len(ev) > t0 and sorted(e for e in ev[t0] if e[0] == "-") == ["-1", "-2"] and _acts(r)[t0] == 9):
+            found |= ctx.violation("direct:until-stops-subs", f"`do .. until` firing at step {t0} did not stop the sub-behaviours: {r}",
+                                   {"kind": "run", "prog": untl, "ctab": pulse, "gtab": [], "steps": 6, "oracle": "until-stops-subs"})
+    return found
+
+
+PROBE_T9 = '''
+behavior B():
+    invariant: self.position.x < 100
+    try:
+        wait
+        wait
+    interrupt when False:
+        wait
+ego = new Object with behavior B
+'''
+
+
+LEAK = """
+behavior Sub():
+    take 1
+    take 2
+    take 3
+behavior Main():
+    invariant: simulation().currentTime < 2
+    try:
+        do Sub()
+    interrupt when simulation().currentTime == 1:
+        take 5
+ego = new Object with behavior Main
+"""
+
+
+def direct_global_state(ctx):
+    """An invariant violation (after the handler's own action, step 2) while the `try` body is suspended inside a
+    sub-behaviour must leave no trace in the process: the next scenario must still compile."""
+    import scenic
+    import scenic.syntax.veneer as veneer
+    from scenic.core.dynamics import GuardViolation
+    from scenic.core.simulators import DummySimulator
+    env()
+    ctx.case("global-state-after-violation")
+    veneer.currentBehavior = None
+    try:
+        sc = scenic.scenarioFromString(LEAK)
+        scene, _ = sc.generate(maxIterations=5)
+        try:
+            DummySimulator().simulate(scene, maxSteps=3, maxIterations=1, raiseGuardViolations=True)
+        except GuardViolation:
+            pass
+        stale = veneer.currentBehavior
+        veneer.currentBehavior = None
+    except Exception as e:
+        return ctx.violation("direct:global-state-crash", f"{type(e).__name__}: {e}", {"kind": "source", "source": LEAK, "steps": 3})
+    if stale is not None:
+        return ctx.violation("direct:stale-current-behavior",
+                             f"after a simulation rejected by an invariant violation under try-interrupt, veneer.currentBehavior is left at {stale!r}: "
+                             "the next scenarioFromString in the process fails (tried to create an object inside a behavior)",
+                             {"kind": "source", "source": LEAK, "steps": 3})
+    return False
+
+
+def direct_regression(ctx):
+    """probe_t9: runTryInterrupt used to re-check invariants with agent None (AttributeError); fixed in 7d55c579."""
+    import scenic
+    from scenic.core.simulators import DummySimulator
+    env()
+    ctx.case("probe_t9")
+    try:
+        sc = scenic.scenarioFromString(PROBE_T9)
+        scene, _ = sc.generate(maxIterations=5)
+        sim = DummySimulator().simulate(scene, maxSteps=4, maxIterations=1, raiseGuardViolations=True)
+        ok = sim is not None
+        detail = "rejected" if sim is None else ""
+    except Exception as e:
+        ok, detail = False, f"{type(e).__name__}: {e}"
+    if not ok:
+        return ctx.violation("direct:invariant-agent", "an invariant mentioning `self` in a behaviour with a try-interrupt statement: " + detail,
+                             {"kind": "source", "source": PROBE_T9, "steps": 4})
+    return False
+
+
+# --------------------------------------------------------------------------- main
+def run(ctx):
+    ctx.rule = ("cases = (program of the interrupt fragment: nested try-interrupt <= depth 3, <= 3 handlers, loops, sub-behaviours, "
+                "do-until, abort/break/continue/return, guards) x (step-indexed truth table of the interrupt conditions, all tables when "
+                "few, else sampled in pulse/dense/sparse/constant styles) x (guard table with at most a few false/rejecting entries); "
+                "non-trivial = the program has a try-interrupt statement and some condition is true at some step; distinct by content hash")
+    ctx.assumptions += [
+        "interrupt conditions and guards are functions of the time step only (no side effects); behaviours have no arguments or locals",
+        "one agent; behaviours (not compose blocks of modular scenarios, not monitors) -- they share runTryInterrupt and the generated code",
+        "finalisation of an abandoned generator happens when runTryInterrupt returns (CPython reference counting); validated by the "
+        "correspondence run (stop events per step), not proved",
+        "`except` clauses of try-interrupt, `do choose/shuffle`, `do .. for` are outside the model (`do .. for` shares the do-until code path)",
+        "a handler that finishes without acting while its condition stays true makes the real scheduler loop forever; such inputs are "
+        "predicted by the model (`diverge`) and not run on the real code",
+    ]
+    ctx.trusted_base += ["tools/translate/interrupts.py (template extraction of the configuration)",
+                         "tools/props/c13.py (program generator, harness around DummySimulator, comparison)",
+                         "lean/Driver/C13.lean (parser of the line protocol, `partial def`)"]
+    ctx.fingerprint(FINGERPRINTS)
+    from translate import interrupts
+    cfg = None
+    try:
+        cfg, extra = interrupts.extract()
+        ctx.gen("Interrupts", interrupts.to_lean(cfg, extra))
+        ctx.extra["configuration"] = dict(cfg, **extra)
+    except TemplateMismatch as e:
+        ctx.escalated.append(f"translator tie lost (interrupts): {e}")
+        ctx.notes.append(f"translator tie lost: {e}; the model runs with the last generated configuration, correspondence at thorough budget")
+    pr = ctx.prove(THEOREMS, side_conditions=SIDE)
+    ctx.extra.setdefault("timing", {})["prove_s"] = round(ctx.elapsed(), 1)
+    if ctx.tier == "thorough" and pr.build_ok:
+        ctx.leanchecker(["ScenicModel.Props.C13", "ScenicModel.Props.C13Sched", "ScenicModel.Props.C13Balance",
+                         "ScenicModel.Props.C13Guards", "ScenicModel.Props.C13Flow", "ScenicModel.Props.C13Fuel"])
+    if cfg is not None:
+        pending = [f for f in DEFECT_FLAGS if not cfg[f]]
+        ctx.extra["hypotheses_not_yet_true_of_the_code"] = pending
+        if pending:
+            ctx.notes.append("theorems guards_not_during_sub / control_flags_exact carry hypotheses not true of the current code: "
+                             + ", ".join(pending) + " (recorded findings; negation witnesses proved)")
+    found = False
+    have_driver = True
+    try:
+        got = ctx.driver(["C13 cfg"])[0]
+        if cfg is not None and got != cfg_bits(cfg):
+            rc, log = ctx.lake(["build", "drv_c13"])
+            got = ctx.driver(["C13 cfg"])[0]
+            if got != cfg_bits(cfg):
+                raise Infra("the Lean driver does not carry the regenerated configuration")
+        if cfg is None:
+            cfg = {f: ch == "1" for f, ch in zip(CFG_FIELDS, got)}
+    except Infra:
+        if pr.build_ok:
+            raise
+        have_driver = False
+    if have_driver:
+        found |= correspondence(ctx, cfg, pr.build_ok)
+    ctx.extra["timing"]["correspondence_done_s"] = round(ctx.elapsed(), 1)
+    found |= direct_regression(ctx)
+    found |= direct_global_state(ctx)
+    found |= direct_flat_priority(ctx)
+    ctx.extra["timing"]["flat_done_s"] = round(ctx.elapsed(), 1)
+    found |= direct_templates(ctx)
+    ctx.extra["timing"]["templates_done_s"] = round(ctx.elapsed(), 1)
+    # every recorded defect whose repair is not in the code must still reproduce (else the finding is stale)
+    if cfg is not None:
+        hits = {k for k, _ in ctx.known_hits}
+        for f in DEFECT_FLAGS:
+            if not cfg[f] and not any(k.startswith("cfg:" + f) or k.startswith("direct:") for k in hits):
+                ctx.notes.append(f"configuration field {f} is false but no recorded finding reproduced")
+    ctx.resolve_brokens(found)
+
+
+def replay(ctx, path):
+    body = json.load(open(path))
+    rep = body.get("replay", body)
+    if rep.get("kind") == "source":
+        import scenic
+        from scenic.core.simulators import DummySimulator
+        env()
+        print(rep["source"])
+        try:
+            sc = scenic.scenarioFromString(rep["source"])
+            scene, _ = sc.generate(maxIterations=5)
+            sim = DummySimulator().simulate(scene, maxSteps=rep.get("steps", 4), maxIterations=1, raiseGuardViolations=True)
+            print("result:", "rejected" if sim is None else [list(a.values()) for a in sim.result.actions])
+        except Exception as e:
+            print("raised", type(e).__name__, e)
+        return 0
+    if rep.get("kind") != "run":
+        print(json.dumps(rep, indent=1)[:3000])
+        return 0
+    prog, ct, gt, steps = rep["prog"], rep["ctab"], rep["gtab"], rep["steps"]
+    print(source(prog))
+    print("conditions (row = condition, column = time step):", ct)
+    print("guards     (0 false, 1 true, 2 rejection):        ", gt)
+    r = run_real(prog, ct, gt, steps, raise_gv=rep.get("raise_gv", True))
+    print("real code :", r["outcome"], " ".join(r["actions"]), "| events per step:", r["events"])
+    if "expected" in rep:
+        e = rep["expected"]
+        print("expected  :", e.get("outcome"), e.get("actions"), ("| events per step: %s" % e["events"]) if "events" in e else "")
+    try:
+        o = ctx.driver([run_line("spec", prog, ct, gt, steps), run_line("gen", prog, ct, gt, steps)])
+        print("model (specified configuration):", o[0])
+        print("model (generated configuration):", o[1])
+    except Exception as e:
+        print("(Lean driver unavailable:", e, ")")
+    return 0
